@@ -212,13 +212,16 @@ def case_b(draw):
     ns = sorted({x["n"] for x in xs})
     cfg = []
     d = draw(st.sampled_from(["default", "0", "0", "n", "n+1"]))
+    dv = 65536
     if d != "default":
         nn = draw(st.sampled_from(ns))
-        cfg.append("smpi/send-is-detached-thresh:%d" % (0 if d == "0" else nn if d == "n" else nn + 1))
+        dv = 0 if d == "0" else nn if d == "n" else nn + 1
+        cfg.append("smpi/send-is-detached-thresh:%d" % dv)
     a = draw(st.sampled_from(["default", "default", "n", "n+1", "big"]))
     if a != "default":
         nn = draw(st.sampled_from(ns))
-        cfg.append("smpi/async-small-thresh:%d" % (nn if a == "n" else nn + 1 if a == "n+1" else 100000))
+        av = min(nn if a == "n" else nn + 1 if a == "n+1" else 100000, dv)      # SMPI refuses async-small > detached
+        cfg.append("smpi/async-small-thresh:%d" % av)
     if draw(st.booleans()):
         cfg.append("smpi/shared-malloc-blocksize:4096")
     return {"cfg": cfg, "xfers": xs}
@@ -229,7 +232,8 @@ def case_b(draw):
 class C35(core.Prop):
     id = "C35"
     drivers = [DRIVER, DRIVER_B]
-    sizes = {"quick": 10000, "thorough": 400000}
+    ready = True
+    sizes = {"quick": 8000, "thorough": 400000}
     max_workers = 14
     technique = ("property-based testing (Hypothesis) of the block computations behind smpi_comm_copy_buffer_callback against an "
                  "interval-set reference model; exhaustive enumeration of all layouts/offsets/lengths of allocations <= 8 bytes")
@@ -254,7 +258,8 @@ class C35(core.Prop):
     def strategy(self, tier):
         a = st.fixed_dictionaries({"q": st.lists(query(), min_size=1, max_size=6)})
         # level (b) forks a 2-rank simulation per case: ~1/12 of the cases
-        return st.one_of(*([a] * 11 + [case_b()]))
+        b = case_b()
+        return st.sampled_from(range(12)).flatmap(lambda k: b if k == 0 else a)
 
     def fixed_cases(self, tier):
         cases = []
@@ -440,6 +445,27 @@ class C35(core.Prop):
     def _priv(b):
         return private_of(b["size"], b["shared"]) if "shared" in b else [[0, b["size"]]]
 
+    @staticmethod
+    def _overshared(b, bs):
+        """Root-cause class of a known defect of smpi_shared_malloc_partial: when the LAST shared block ends at the end of the
+        allocation and ALIGN_DOWN(stop, page) <= ALIGN_DOWN(stop, blocksize) (e.g. any allocation smaller than a page), the tail
+        mapping starts at ALIGN_DOWN(stop, blocksize), i.e. possibly BEFORE the shared block: the private bytes in between are
+        mapped on the shared file as well.  Returns those bytes (allocation coordinates)."""
+        if "shared" not in b:
+            return []
+        size, sh = b["size"], b["shared"]
+        st_, en = sh[-2], sh[-1]
+        if en != size:
+            return []
+        page = 4096
+        up = lambda x, a: -(-x // a) * a
+        down = lambda x, a: x // a * a
+        start_block, stop_block = up(st_, bs), down(en, bs)
+        low_stop = start_block if start_block < down(en, page) else down(en, page)
+        if low_stop <= stop_block < size:
+            return inter(private_of(size, sh), [[stop_block, size]])
+        return []
+
     def check_b(self, case):
         oc = core.Outcome()
         r = core.serve(DRIVER_B, case, cpu=60, wall=300)
@@ -455,6 +481,13 @@ class C35(core.Prop):
         for k, x in enumerate(case["xfers"]):
             n, so, do = x["n"], x["so"], x["do"]
             sp, dp = self._priv(x["src"]), self._priv(x["dst"])
+            # bytes hit by the known allocator defect are judged apart (own signature) and count as shared for everything else
+            bs = 4096 if "smpi/shared-malloc-blocksize:4096" in case["cfg"] else 1 << 20
+            so_, do_ = self._overshared(x["src"], bs), self._overshared(x["dst"], bs)
+            sp_all, dp_all = sp, dp
+            sp, dp = minus(sp, so_), minus(dp, do_)
+            if so_ or do_:
+                labels.add("b:allocator-tail-defect-in-play")
             what = ("transfer #%d: %s/%s (first: %s) of %d bytes from offset %d of %s to offset %d of %s, cfg %s"
                     % (k, x["send"], x["recv"], x["first"], n, so, x["src"], do, x["dst"], case["cfg"]))
             labels.add("b:send:" + x["send"])
@@ -504,6 +537,16 @@ class C35(core.Prop):
                 oc.bad("transfer:sender-buffer-corrupted", "%s: private bytes %s of the send buffer changed; send buffer: %s" % (what, hurt, sd["runs"]))
             if both:
                 labels.add("b:some-bytes-private-on-both-sides")
+            if so_ or do_:
+                # the same judgement on the bytes that the allocator wrongly shares
+                both_all = inter(ref_shift(sp_all, so, n), ref_shift(dp_all, do, n))
+                bad = minus(minus(both_all, got_s), both) or minus(minus(minus(dp_all, [[do, do + n]] if n > 0 else []), got_r), rpriv_out) \
+                    or minus(minus(sp_all, own), sp)
+                if bad:
+                    oc.bad("alloc:private-bytes-before-final-shared-block-are-shared",
+                           "%s: private bytes %s (send buffer) / %s (receive buffer) are mapped on the shared file by "
+                           "smpi_shared_malloc_partial and were overwritten by the other rank (bytes %s); send buffer: %s; receive "
+                           "buffer: %s" % (what, so_, do_, bad, sd["runs"], rv["runs"]))
         else:
             if not ended or r.rc != 0:
                 oc.bad("transfer:crash", "the simulation did not end normally (rc=%s); stderr tail: %s" % (r.rc, r.err[-1200:]))
